@@ -333,9 +333,9 @@ type world struct {
 }
 
 const (
-	issuerKID = "did:nuts:issuer#k1"
-	nodeKAKID = "did:nuts:node#ka1"
-	partKAKID = "did:nuts:part#ka1"
+	issuerKID  = "did:nuts:issuer#k1"
+	nodeKAKID  = "did:nuts:node#ka1"
+	partKAKID  = "did:nuts:part#ka1"
 	missingKID = "did:nuts:issuer#missing"
 )
 
